@@ -2,7 +2,7 @@
 From Coq Require Import String.
 From Coq Require Import List NArith ZArith Bool.
 From Dials Require Export Base.Outcome Base.Runes Reflect.Ty Reflect.Ptrify Stack.Overlay
-  Text.ParseText Sources.Flatten Sources.Decoders.
+  Text.ParseText Sources.Flatten Sources.Decoders Sources.DecodersSpec.
 From Dials Require Import Check.C12Check.
 Import ListNotations.
 Open Scope list_scope.
@@ -10,60 +10,6 @@ Open Scope N_scope.
 
 Definition fmt_of (n : N) : format :=
   match n with 0 => FJson | 1 => FYaml | 2 => FToml | _ => FCue end.
-
-(* specification: a strict decoder directed by the format tag if the field
-   has one, else by its dials tag; durations in both forms *)
-Definition spec_key (f : format) (n : str) (tags : list (str * str)) : str :=
-  match tag_get (fmt_tag f) tags with
-  | [] => match tag_get dials_tag tags with [] => n | k => k end
-  | k => k
-  end.
-
-Fixpoint spec_ty (f : format) (d : doc) (t : ty) {struct t} : outcome val :=
-  match t with
-  | TBasic k name => decode_basic true k name d
-  | TPtr t' => omap VPtr (spec_ty f d t')
-  | TSlice e _ =>
-      match d with
-      | DList l =>
-          omap VList ((fix go (l : list doc) : outcome (list val) :=
-                         match l with
-                         | [] => Ok []
-                         | x :: r => v <- spec_ty f x e ;; vs <- go r ;; Ok (v :: vs)
-                         end) l)
-      | _ => Err 40
-      end
-  | TMap (TBasic KString _) e _ =>
-      match d with
-      | DMap kvs =>
-          omap VMap ((fix go (l : list (str * doc)) : outcome (list (val * val)) :=
-                        match l with
-                        | [] => Ok []
-                        | (k, x) :: r => v <- spec_ty f x e ;; m <- go r ;; Ok (kv_ins k v m)
-                        end) (rev kvs))
-      | _ => Err 40
-      end
-  | TStruct fs _ =>
-      match d with
-      | DMap kvs => omap VStruct (spec_fields f kvs fs)
-      | _ => Err 43
-      end
-  | _ => Err e_unmodelled
-  end
-with spec_fields (f : format) (kvs : list (str * doc)) (fs : fields) {struct fs} : outcome (list val) :=
-  match fs with
-  | FNil => Ok []
-  | FCons n tags _ t r =>
-      v <- match doc_lookup (spec_key f n tags) kvs with
-           | Some d => spec_ty f d t
-           | None => Ok (zero t)
-           end ;;
-      vs <- spec_fields f kvs r ;;
-      Ok (v :: vs)
-  end.
-
-Definition spec_decode (f : format) (d : doc) (pfs : fields) : outcome (list val) :=
-  match d with DMap kvs => spec_fields f kvs pfs | _ => Err 43 end.
 
 Inductive c13case :=
 | Agree (fs : fields) (d : doc) (ij iy it ic : outcome (list val))
